@@ -220,8 +220,20 @@ func c11Stress(c *mon.Ctx) {
 			c.Violation(f.Sig, f.What+"\n  stress run: "+res.Config, map[string]any{"stress_rep": rep, "config": res.Config})
 		}
 	}
+	// close storms: the window between "is it closed?" and "mark closed" has no yield point, so only real
+	// parallelism can hit it: many fresh Reassemblers, each closed by several goroutines released together
+	for _, G := range []int{2, 8, 16} {
+		rounds, fs := sched.CloseStorm(c.Pick(6000, 200000), G)
+		c.Add("close_storm_rounds", rounds)
+		ev.Add(rounds)
+		for _, f := range fs {
+			c.Violation(f.Sig, f.What+fmt.Sprintf("\n  close storm with %d goroutines", G), map[string]any{"close_storm_goroutines": G})
+		}
+	}
+	c.Nontrivial("close-storms")
 	c.Require("pushes_returned_before_close", 1)
 	c.Require("messages_delivered", 1)
+	c.Require("close_storm_rounds", 1000)
 }
 
 func init() {
